@@ -41,6 +41,10 @@ type c16Case struct {
 	WaitTimer               bool
 	ConfirmYes              bool
 	NStanzas                int `json:"nStanzas"` // stanzas handed to Unwrap
+	// Burst: the plugin writes all its messages at once instead of waiting for each reply
+	Burst bool `json:"burst,omitempty"`
+	// Debug: AGEDEBUG=plugin is set (the client copies the conversation to standard error)
+	Debug bool `json:"debug,omitempty"`
 }
 
 func (m pMsg) raw() string {
@@ -260,6 +264,7 @@ func c16Check(c c16Case, st *stats.Run) error {
 		}
 		script.Steps[len(script.Steps)-1].Helper = m.Helper
 	}
+	script.Burst = c.Burst
 	bin := filepath.Join(dir, "bin")
 	if err := hx.InstallPlugin(dir, bin, "sim", script); err != nil {
 		return pbt.Failf("C16/harness", "%v", err)
@@ -273,7 +278,7 @@ func c16Check(c c16Case, st *stats.Run) error {
 			nontrivial = true
 		}
 	}
-	labels := []string{"machine=" + c.Machine, fmt.Sprintf("ui=%d%d%d", c.UIMsg, c.UIReq, c.UIConfirm), fmt.Sprintf("steps=%d", len(c.Msgs)), fmt.Sprintf("model-abort=%v", want.Abort), fmt.Sprintf("unspecified=%v", want.Unspecified)}
+	labels := []string{"machine=" + c.Machine, fmt.Sprintf("ui=%d%d%d", c.UIMsg, c.UIReq, c.UIConfirm), fmt.Sprintf("steps=%d", len(c.Msgs)), fmt.Sprintf("model-abort=%v", want.Abort), fmt.Sprintf("unspecified=%v", want.Unspecified), fmt.Sprintf("burst=%v", c.Burst), fmt.Sprintf("agedebug=%v", c.Debug)}
 	for _, m := range c.Msgs {
 		labels = append(labels, "cmd="+m.Cmd)
 	}
@@ -294,6 +299,9 @@ func c16Check(c c16Case, st *stats.Run) error {
 	oldPath := os.Getenv("PATH")
 	os.Setenv("PATH", bin)
 	os.Setenv(hx.PlugEnv, dir)
+	if c.Debug {
+		os.Setenv("AGEDEBUG", "plugin")
+	}
 	returned, panicked := pbt.Watchdog(30*time.Second, func() {
 		switch c.Machine {
 		case "recipient":
@@ -320,6 +328,7 @@ func c16Check(c c16Case, st *stats.Run) error {
 		}
 	})
 	os.Setenv("PATH", oldPath)
+	os.Unsetenv("AGEDEBUG")
 	pathMu.Unlock()
 	if !returned {
 		return pbt.Failf("C16/hang", "the client did not return within 30 s for conversation %+v", c.Msgs)
@@ -463,6 +472,81 @@ func c16CheckPhase1(c c16Case, raw string, in []*age.Stanza) error {
 	return nil
 }
 
+// through the age command: a plugin identity that yields no file key does not
+// keep the identities listed after it from being tried
+type c16Others struct {
+	Encrypted bool   `json:"encrypted"` // the identity file is itself passphrase-protected
+	Behave    string `json:"behave"`    // nokey | error
+	Position  int    `json:"position"`  // plugin line before (0) or after (1) the matching native identity
+}
+
+func c16CheckOthers(c c16Others, st *stats.Run) error {
+	bin := os.Getenv("VERIF_BIN")
+	if bin == "" {
+		return nil
+	}
+	p := hx.ThePool()
+	dir, err := os.MkdirTemp(".", "c16o-")
+	if err != nil {
+		return pbt.Failf("C16/harness", "%v", err)
+	}
+	dir, _ = filepath.Abs(dir)
+	defer os.RemoveAll(dir)
+	script := &hx.PlugScript{Steps: []hx.PlugStep{{Raw: "-> done\n\n", NoReply: true}}}
+	if c.Behave == "error" {
+		script.Steps = []hx.PlugStep{{Raw: "-> error internal\n" + refage.B64([]byte("plugin says no")) + "\n"}, {Raw: "-> done\n\n", NoReply: true}}
+	}
+	pdir := filepath.Join(dir, "plugins")
+	if err := hx.InstallPlugin(dir, pdir, "sim", script); err != nil {
+		return pbt.Failf("C16/harness", "%v", err)
+	}
+	work := filepath.Join(dir, "work")
+	os.MkdirAll(work, 0o755)
+	plain := hx.PRG(41, 200)
+	lines := []string{plugin.EncodeIdentity("sim", []byte("identity data")), refage.Bech32Encode("AGE-SECRET-KEY-", p.X25519[0])}
+	if c.Position == 1 {
+		lines[0], lines[1] = lines[1], lines[0]
+	}
+	idPlain := []byte("# identities\n" + strings.Join(lines, "\n") + "\n")
+	// the file has a stanza for the plugin and one for the native key
+	fk := hx.PRG(42, 16)
+	sts := append([]refage.Stanza{{Type: "sim", Args: []string{"arg"}, Body: hx.PRG(43, 32)}}, refStanza(p, hx.RecSpec{Kind: "x25519", Idx: 0}, fk, 7)...)
+	os.WriteFile(filepath.Join(work, "in.age"), refage.Build(fk, hx.PRG(44, 16), sts, refage.CanonicalChunks(plain)).Bytes(), 0o644)
+	st.Case(true, stats.HashJSON(c), "cli-other-identities", fmt.Sprintf("cli-other-identities:encrypted-file=%v", c.Encrypted), "cli-other-identities:plugin="+c.Behave, fmt.Sprintf("cli-other-identities:plugin-first=%v", c.Position == 0))
+	st.Sample("cli-other-identities", c)
+	env := []string{"PATH=" + pdir, "HOME=" + work, hx.PlugEnv + "=" + dir}
+	var code int
+	var stderr string
+	if c.Encrypted {
+		const pass = "identity file passphrase"
+		ifk := hx.PRG(45, 16)
+		idf := refage.Build(ifk, hx.PRG(46, 16), []refage.Stanza{refage.WrapScrypt(ifk, hx.PRG(47, 16), 10, []byte(pass))}, refage.CanonicalChunks(idPlain))
+		os.WriteFile(filepath.Join(work, "id.age"), idf.Bytes(), 0o600)
+		res, tty := c15RunPtyEnv(work, env, []string{pass}, filepath.Join(bin, "age"), "-d", "-i", "id.age", "-o", "out.dat", "in.age")
+		if res.killed || res.code == -3 {
+			st.Label("inconclusive-pty")
+			return nil
+		}
+		code, stderr = res.code, res.stderr+" / "+tty
+	} else {
+		os.WriteFile(filepath.Join(work, "id.txt"), idPlain, 0o600)
+		code, _, stderr = runCLI(work, env, nil, filepath.Join(bin, "age"), "-d", "-i", "id.txt", "-o", "out.dat", "in.age")
+		if code == -2 {
+			return nil
+		}
+	}
+	got, _ := os.ReadFile(filepath.Join(work, "out.dat"))
+	// an error message from the plugin aborts, unless the native identity had already opened the file
+	wantOK := c.Behave == "nokey" || c.Position == 1
+	if wantOK && (code != 0 || !bytes.Equal(got, plain)) {
+		return pbt.Failf("C16/incorrect-identity", "age -d with an identity file (passphrase-protected: %v) listing a plugin identity that yields no file key and the matching native identity (plugin line first: %v): exit %d, %d bytes of output; the other identity was not tried (%s)", c.Encrypted, c.Position == 0, code, len(got), trunc([]byte(stderr)))
+	}
+	if !wantOK && code == 0 {
+		return pbt.Failf("C16/wrong-result", "the plugin reported an error, yet age -d exits 0")
+	}
+	return nil
+}
+
 // the reduced alphabet for exhaustive enumeration
 func c16Alphabet() []pMsg {
 	b16 := hx.PRG(1, 16)
@@ -568,7 +652,7 @@ func TestC16(t *testing.T) {
 			for _, machine := range []string{"recipient", "identity"} {
 				for _, ui := range []int{0, 1, 2} {
 					if s.Mine(n) {
-						yield(c16Case{Machine: machine, Msgs: append([]pMsg{}, prefix...), UIMsg: ui, UIReq: ui, UIConfirm: ui, ConfirmYes: n%2 == 0, NStanzas: 1 + n%3})
+						yield(c16Case{Machine: machine, Msgs: append([]pMsg{}, prefix...), UIMsg: ui, UIReq: ui, UIConfirm: ui, ConfirmYes: n%2 == 0, NStanzas: 1 + n%3, Burst: n%4 == 1, Debug: n%10 == 3})
 					}
 					n++
 				}
@@ -600,6 +684,20 @@ func TestC16(t *testing.T) {
 		}
 		s.St.Exhaust("plugin exits mid-conversation leaving a helper process that holds its stderr", 4)
 	}, check)
+	pbt.Each(s, "cli-other-identities", func(yield func(c16Others)) {
+		n := 0
+		for _, enc := range []bool{false, true} {
+			for _, b := range []string{"nokey", "error"} {
+				for pos := 0; pos < 2; pos++ {
+					if s.Mine(n) {
+						yield(c16Others{Encrypted: enc, Behave: b, Position: pos})
+					}
+					n++
+				}
+			}
+		}
+		s.St.Exhaust("age -d with an identity file (plain / passphrase-protected) listing a plugin identity (no file key / error) before or after the matching native identity", int64(n))
+	}, func(c c16Others) error { return c16CheckOthers(c, s.St) })
 	pbt.Rapid(s, "conversations", s.N(800, 6000), func(t *rapid.T) c16Case {
 		c := c16Case{Machine: rapid.SampledFrom([]string{"recipient", "identity", "identity", "identity-as-recipient"}).Draw(t, "machine")}
 		n := rapid.IntRange(0, 8).Draw(t, "nmsgs")
@@ -616,6 +714,8 @@ func TestC16(t *testing.T) {
 		c.UIMsg, c.UIReq, c.UIConfirm = rapid.IntRange(0, 2).Draw(t, "uiMsg"), rapid.IntRange(0, 2).Draw(t, "uiReq"), rapid.IntRange(0, 2).Draw(t, "uiConfirm")
 		c.WaitTimer, c.ConfirmYes = rapid.Bool().Draw(t, "wait"), rapid.Bool().Draw(t, "yes")
 		c.NStanzas = rapid.IntRange(1, 4).Draw(t, "nst")
+		c.Burst = rapid.IntRange(0, 3).Draw(t, "burst") == 0
+		c.Debug = rapid.IntRange(0, 5).Draw(t, "agedebug") == 0
 		return c
 	}, check)
 }
